@@ -144,6 +144,14 @@ def cases(tier, rng):
                 body = " | ".join(fs)
                 add("batch", ("batch %s %s" % (f, body)).rstrip())
                 add("batch", ("parbatch %s %s" % (f, body)).rstrip())
+        # long batches of small factors: lengths around and beyond any plausible internal cutoff (100, 128, 256, 1000) and
+        # NOT multiples of a chunk size derived from the CPU count (seeded change C07_h: `par_chunks_exact` drops the tail of
+        # a batch of 129 factors on 16 CPUs; nothing shorter than 128 reaches the parallel path there)
+        for n in ((100, 127, 128, 129, 130, 200, 255, 257, 1000) if f == "b" else (127, 129, 257)):
+            degs = [rng.choice((0, 1, 1, 1, 2)) for _ in range(n)]
+            body = " | ".join(grp(poly(rng, f, d), rng.choice((0, 0, 0, 1))) for d in degs)
+            add("batch-long", "batch %s %s" % (f, body))
+            add("batch-long", "parbatch %s %s" % (f, body))
         for n in (1, 2, 3, 9):
             fs = [grp(poly(rng, f, 2)) for _ in range(n)]
             fs[rng.randrange(n)] = grp([], rng.choice((0, 1)))   # a zero factor
@@ -279,6 +287,9 @@ def extra_checks(ctx):
             lines.append("parbatch %s %s" % (f, body))
         body = " | ".join(grp(poly(rng, f, 33)) for _ in range(12))      # products cross the NTT threshold
         lines.append("parbatch %s %s" % (f, body))
+        for n in ((127, 128, 129, 131, 255, 257, 1000) if f == "b" else (129, 257)):   # long batches, odd lengths
+            body = " | ".join(grp(poly(rng, f, rng.choice((0, 1, 1, 2)))) for _ in range(n))
+            lines.append("parbatch %s %s" % (f, body))
     lines = ["%d %s" % (i, c) for i, c in enumerate(lines)]
     viol = []
     info = {"thread_settings": []}
